@@ -1,6 +1,6 @@
 (* C15 property theorems. Only statements closed by [exact lemma] and Print Assumptions. *)
 From V Require Import Common.Base C15.Names C15.Renamer C15.Spec
-  C15.NamesProofs C15.NumberProofs C15.SlotsProofs C15.MinifyProofs C15.ComposeProofs.
+  C15.NamesProofs C15.NumberProofs C15.SlotsProofs C15.MinifyProofs C15.ComposeProofs C15.ResolveProofs.
 
 (* NumberToMinifiedName is injective for every alphabet without repeated characters *)
 Theorem minified_name_injective : forall m,
@@ -112,35 +112,6 @@ Theorem export_minified_injective : forall c1 c2, 0 <= c1 -> 0 <= c2 ->
 Proof. exact NextMinifiedName_inj. Qed.
 Print Assumptions export_minified_injective.
 
-(* REFUTED (genuine defect, known finding C15-with-pinned-nested-name-captured-by-minified-name):
-   "a minified name never equals the name of a pinned symbol visible in the
-   same scope".  ComputeReservedNames does not reserve names pinned in nested
-   scopes outside direct-eval chains (e.g. names referenced inside `with`);
-   the witness is a well-formed module in which the pinned symbol 0 and the
-   renamed symbol 1 are visible together and both end up named "a".  What does
-   hold is minify_names_distinct_and_admissible: no name of the reserved set
-   that was actually computed is ever chosen. *)
-Theorem minify_avoids_pinned_nested_refuted :
-  wf_slots wp_syms wp_module = true /\
-  In [1%nat; 0%nat] (slot_vis_forest (sc_children wp_module) (module_top wp_module)) /\
-  wp_names = Some ([97], [97]).
-Proof. exact minify_pinned_nested_collision. Qed.
-Print Assumptions minify_avoids_pinned_nested_refuted.
-
-(* REFUTED (genuine defect, known finding C15-with-pinned-nested-name-captured-by-numbered-name):
-   "a name assigned by the number renamer never equals the name of a pinned
-   symbol visible in the same scope".  Same root as the previous theorem: a
-   symbol pinned in a nested scope (referenced inside `with`) is neither
-   reserved nor recorded in its numberScope; the parameter "e" below it is
-   renamed "e2" because "e" is a free name, and lands on the pinned "e2".
-   number_renamer_no_shadow (between renamed symbols) and
-   number_renamer_avoids_reserved (the computed reserved set) do hold. *)
-Theorem number_renamer_pinned_nested_refuted :
-  wf_number np_syms [0%nat] (sc_children np_module) = true /\
-  In [2%nat; 1%nat; 0%nat] (vis_forest np_syms (sc_children np_module) (map (follow np_syms) [0%nat])) /\
-  np_names = Some ([101; 50], [101; 50]).
-Proof. exact number_pinned_nested_collision. Qed.
-Print Assumptions number_renamer_pinned_nested_refuted.
 
 (* ---- composition slot -> name, and the chunk (cross-file) theorems ---- *)
 
@@ -192,36 +163,69 @@ Theorem number_toplevel_distinct : forall fuel st reserved toplevel nested names
 Proof. exact number_toplevel_distinct_all. Qed.
 Print Assumptions number_toplevel_distinct.
 
-(* ComputeReservedNames contains the name of every pinned symbol declared in a
-   module scope or in a scope reached from it through direct-eval scopes *)
-Theorem reserved_covers_eval_chains : forall st mods msc r,
-  In msc mods -> In r (eval_reach_decls msc) -> sy_ns (getsym st r) = NsPinned ->
+(* ComputeReservedNames (as fixed in 3eb6e21: the whole scope tree is walked)
+   contains the name of every pinned symbol declared anywhere in the module
+   scope trees: free names, must-not-be-renamed symbols, everything visible to a
+   direct eval, names referenced inside `with`, `arguments` *)
+Theorem reserved_covers_all_pinned : forall st mods msc r,
+  In msc mods -> In r (tree_decls msc) -> sy_ns (getsym st r) = NsPinned ->
   In (sy_name (getsym st r)) (ComputeReservedNames st mods).
 Proof. exact reserved_covers. Qed.
-Print Assumptions reserved_covers_eval_chains.
+Print Assumptions reserved_covers_all_pinned.
 
-(* PARTIAL for minify_avoids_pinned_nested_refuted (full statement: "a minified
-   default name never equals the name of ANY pinned symbol visible with it"):
-   it holds for every pinned symbol of a module scope or of a direct-eval
-   chain; the refuted remainder is exactly a symbol pinned in a nested scope
-   that no direct-eval chain reaches (pinned by `with`), the recorded shape *)
-Theorem minify_avoids_pinned_partial : forall mf,
+(* FULL (was minify_avoids_pinned_nested_refuted before 3eb6e21): a minified
+   default name never equals the name of ANY pinned symbol of the module scope
+   trees of the chunk, whenever the reserved set handed to the renamer includes
+   ComputeReservedNames of those module scopes (the linker only adds names) *)
+Theorem minify_avoids_pinned : forall mf,
   NoDup (m_head mf) -> NoDup (m_tail mf) -> 1 <= zlen (m_head mf) -> 2 <= zlen (m_tail mf) ->
   forall fuel st slots firstc stable reserved pre groups m3 mods,
   minify_rename fuel st slots firstc stable reserved mf pre groups = Some m3 ->
   incl (ComputeReservedNames st mods) reserved ->
-  forall msc p, In msc mods -> In p (eval_reach_decls msc) -> sy_ns (getsym st p) = NsPinned ->
+  forall msc p, In msc mods -> In p (tree_decls msc) -> sy_ns (getsym st p) = NsPinned ->
   forall i, 0 <= i < Z.of_nat (length (ms_default m3)) ->
     slot_name (ms_default m3) i <> sy_name (getsym st p).
-Proof. exact minify_avoids_pinned_partial_all. Qed.
-Print Assumptions minify_avoids_pinned_partial.
+Proof. exact minify_avoids_pinned_all. Qed.
+Print Assumptions minify_avoids_pinned.
 
-(* PARTIAL for number_renamer_pinned_nested_refuted, same boundary *)
-Theorem number_avoids_pinned_partial : forall fuel st reserved toplevel nested names mods,
+(* FULL (was number_renamer_pinned_nested_refuted before 3eb6e21): no name
+   assigned by the number renamer equals the name of any pinned symbol of the
+   module scope trees *)
+Theorem number_avoids_pinned : forall fuel st reserved toplevel nested names mods,
   number_rename fuel st reserved toplevel nested = Some names ->
   wf_number st toplevel nested = true ->
   incl (ComputeReservedNames st mods) reserved ->
-  forall msc p, In msc mods -> In p (eval_reach_decls msc) -> sy_ns (getsym st p) = NsPinned ->
+  forall msc p, In msc mods -> In p (tree_decls msc) -> sy_ns (getsym st p) = NsPinned ->
   forall r n, lookup names r = Some n -> n <> sy_name (getsym st p).
-Proof. exact number_avoids_pinned_partial_all. Qed.
-Print Assumptions number_avoids_pinned_partial.
+Proof. exact number_avoids_pinned_all. Qed.
+Print Assumptions number_avoids_pinned.
+
+(* ---- resolution on the scope chain ----
+   [resolve v nmf x]: the first symbol of the visibility list v (innermost
+   declarations first) whose name under nmf is x - with the original names the
+   parser's binding of a reference, with the new names what the engine does on
+   the output.  If no other visible symbol carries the new name of s, a
+   reference bound to s before still resolves to s after: no capture *)
+Theorem resolution_preserved_on_chain : forall v orig nmf x s,
+  resolve v orig x = Some s ->
+  (forall t, In t v -> nmf t = nmf s -> t = s) ->
+  resolve v nmf (nmf s) = Some s.
+Proof. exact resolution_preserved_core. Qed.
+Print Assumptions resolution_preserved_on_chain.
+
+(* ... and the number renamer meets that hypothesis on every visibility set of
+   every well-formed forest for every renamed symbol; for the symbols that keep
+   their names the side condition is number_avoids_pinned (pinned symbols of the
+   module scope trees; labels and mangled properties live in other name spaces) *)
+Theorem resolution_preserved_number : forall fuel st reserved toplevel nested names,
+  number_rename fuel st reserved toplevel nested = Some names ->
+  wf_number st toplevel nested = true ->
+  forall v, In v (vis_forest st nested (map (follow st) toplevel)) ->
+  forall x s, resolve v (fun t => sy_name (getsym st t)) x = Some s ->
+    renameable (sy_ns (getsym st s)) = true ->
+    (forall p, In p v -> renameable (sy_ns (getsym st p)) = false ->
+               sy_name (getsym st p) <> number_name_for st names s) ->
+    (forall t, In t v -> follow st t = t) ->
+    resolve v (number_name_for st names) (number_name_for st names s) = Some s.
+Proof. exact resolution_preserved_number_all. Qed.
+Print Assumptions resolution_preserved_number.
